@@ -58,4 +58,51 @@ example : (match runOps St.init [(1, .startTest ["s", "t"] default), (1, .setSte
     | .ok s => (isSuccessful s (.test ["s", "t"]), s.fired.length)
     | .error _ => (true, 0)) = (false, 5) := by decide
 
+/-- A failing event marks exactly ONE location: the kind of node (test / suite setup / suite teardown / session phase)
+    is part of the key, not only the hierarchy of names. -/
+theorem failing_event_marks_one_location (e : Event) (l₁ l₂ : Loc) (h₁ : failsAt e l₁ = true)
+    (h₂ : failsAt e l₂ = true) : l₁ = l₂ := by
+  cases e <;> simp [failsAt] at h₁ h₂
+  · exact h₁.symm.trans h₂
+  · exact h₁.1.symm.trans h₂.1
+  · exact h₁.1.symm.trans h₂.1
+
+/-- Nodes that carry the same hierarchy of names do not share a verdict (a suite may hold a TEST and a SUB-SUITE with the
+    same name — the loader checks the two kinds of names separately —: `Loc.test p`, `Loc.suiteSetup p` and
+    `Loc.suiteTeardown p` are three locations).  For every call sequence by any number of threads: when every failing
+    event fired so far was emitted at `l₀` (say the test `a.login`), every OTHER location — the setup and the teardown
+    of the sub-suite `a.login` included — is still successful, whatever the order in which the threads got there. -/
+theorem failure_stays_at_its_location (ops : List (Nat × Op)) (s : St) (h : runOps St.init ops = .ok s)
+    (l₀ loc : Loc) (hne : loc ≠ l₀) (honly : ∀ e ∈ s.fired, ∀ l, failsAt e l = true → l = l₀) :
+    isSuccessful s loc = true := by
+  cases hs : isSuccessful s loc with
+  | true => rfl
+  | false =>
+    obtain ⟨e, hm, hf⟩ := (location_failed_iff_failing_event ops s h loc).mp hs
+    exact absurd (honly e hm loc hf) hne
+
+/-- its instance for the homonymous pair: a failed test `p` leaves the setup and the teardown of a suite `p` successful,
+    and a failed setup of suite `p` leaves the test `p` successful -/
+theorem homonymous_test_and_suite_do_not_share_failures (ops : List (Nat × Op)) (s : St)
+    (h : runOps St.init ops = .ok s) (p : Path) :
+    ((∀ e ∈ s.fired, ∀ l, failsAt e l = true → l = .test p) →
+        isSuccessful s (.suiteSetup p) = true ∧ isSuccessful s (.suiteTeardown p) = true) ∧
+    ((∀ e ∈ s.fired, ∀ l, failsAt e l = true → l = .suiteSetup p) → isSuccessful s (.test p) = true) :=
+  ⟨fun ho => ⟨failure_stays_at_its_location ops s h (.test p) _ (by simp) ho,
+              failure_stays_at_its_location ops s h (.test p) _ (by simp) ho⟩,
+   fun ho => failure_stays_at_its_location ops s h (.suiteSetup p) _ (by simp) ho⟩
+
+/-! Non-vacuity: suite `a` holds the test `login` and the sub-suite `login`.  Worker 1 runs the test (error log), worker 2
+    the sub-suite's setup, in either order: the test is failed, the setup of the homonymous suite is not. -/
+example : (match runOps St.init [(1, .startTest ["a", "login"] default), (1, .log .error "cannot log in"),
+            (2, .startSuiteSetup ["a", "login"]), (2, .log .info "preparing"), (2, .endSuiteSetup ["a", "login"]),
+            (1, .endTest ["a", "login"])] with
+    | .ok s => (isSuccessful s (.test ["a", "login"]), isSuccessful s (.suiteSetup ["a", "login"]))
+    | .error _ => (true, false)) = (false, true) := by decide
+example : (match runOps St.init [(2, .startSuiteSetup ["a", "login"]), (2, .log .error "no database"),
+            (1, .startTest ["a", "login"] default), (2, .endSuiteSetup ["a", "login"]), (1, .log .info "ok"),
+            (1, .endTest ["a", "login"])] with
+    | .ok s => (isSuccessful s (.test ["a", "login"]), isSuccessful s (.suiteSetup ["a", "login"]))
+    | .error _ => (false, true)) = (true, false) := by decide
+
 end LccModel.C02
